@@ -1117,7 +1117,8 @@ def d_map_manual(rng, c):
     imp = c.impname
     T, D = t.name, t.name
     k = rng.choice(["value_recv", "value_recv_other", "write_nonptr", "write_int", "write_other", "dup_write", "read_int",
-                    "read_other", "dup_read", "two_params", "with_result", "no_params", "ok_two_names"])
+                    "read_other", "dup_read", "two_params", "with_result", "no_params", "ok_two_names",
+                    "unnamed_param", "unnamed_recv", "no_body_write", "no_body_read", "unnamed_both"])
     to = rng.choice(["to", "write"]) + rng.choice([key.lower(), key[:1].upper() + key[1:]])
     fr = rng.choice(["from", "read"]) + rng.choice([key.lower(), key[:1].upper() + key[1:]])
     R = [Param(["t"], tstar(tid(T)))]
@@ -1152,9 +1153,65 @@ def d_map_manual(rng, c):
         add(FDecl(to, R, [Param(["d"], tstar(tsel(imp, D)))], [Param([], tid("error"))], {"text": "\treturn nil\n"}))
     elif k == "no_params":
         add(FDecl(fr, R, [], None, body))
+    elif k == "unnamed_param":
+        add(FDecl(to, R, [Param([], tstar(tsel(imp, D)))], None, body))
+    elif k == "unnamed_recv":
+        add(FDecl(fr, [Param([], tstar(tid(T)))], [Param(["d"], rng.choice([tsel(imp, D), tstar(tsel(imp, D))]))], None, body))
+    elif k == "unnamed_both":
+        add(FDecl(to, [Param([], tstar(tid(T)))], [Param([], tstar(tsel(imp, D)))], None, body))
+        add(FDecl(fr, [Param([], tstar(tid(T)))], [Param([], tsel(imp, D))], None, body))
+    elif k == "no_body_write":
+        add(FDecl(to, R, [Param(["d"], tstar(tsel(imp, D)))], None, None))
+    elif k == "no_body_read":
+        add(FDecl(fr, R, [Param(["d"], tsel(imp, D))], None, None))
     else:
         add(FDecl(to, R, [Param(["d", "e"], tstar(tsel(imp, D)))], None, body))
     c.labels.append("manual:" + k)
+    return T
+
+
+def d_map_shootnew(rng, c):
+    """odd constructors and accessors of a shoot-new source type: unnamed constructor parameters, declarations without
+    body, SetX with 0 or 2 parameters, getters with an empty or a double result list"""
+    f, t = map_target(rng, c, plain=False)
+    if t is None:
+        return None
+    T = t.name
+    if T not in c.shootnew:
+        if not any(not n[:1].isupper() for fl in t.body[1] for n in fl.names):
+            t.body[1].append(Field(["name"], tid("string")))
+        f.decls.append(("func", FDecl("ShootNew", [Param(["t"], tid(T))], [], None, {"text": ""})))
+        c.shootnew.append(T)
+    R = [Param(["t"], tstar(tid(T)))]
+    f.decls[:] = [d for d in f.decls if not (d[0] == "func" and (d[1].name in ("New" + T, "SetName", "Name", "Id", "SetId") ))]
+    for k in rng.sample(["ctor_unnamed", "ctor_nobody", "ctor_mixed", "set_noparam", "set_two", "get_empty", "get_two",
+                         "get_nobody", "set_nobody"], rng.randint(1, 3)):
+        if k.startswith("ctor") and any(d[0] == "func" and d[1].name == "New" + T for d in f.decls):
+            continue
+        if k == "ctor_unnamed":
+            f.decls.append(("func", FDecl("New" + T, None, [Param([], tid("int")), Param([], tid("string"))],
+                                          [Param([], tstar(tid(T)))], {"text": "\treturn &%s{}\n" % T})))
+        elif k == "ctor_nobody":
+            f.decls.append(("func", FDecl("New" + T, None, [Param(["id"], tid("int")), Param(["name"], tid("string"))],
+                                          [Param([], tstar(tid(T)))], None)))
+        elif k == "ctor_mixed":
+            f.decls.append(("func", FDecl("New" + T, None, [Param(["a", "b"], tid("int"))],
+                                          [Param([], tstar(tid(T)))], {"text": "\treturn &%s{}\n" % T})))
+        elif k == "set_noparam":
+            f.decls.append(("func", FDecl("SetName", R, [], None, {"text": ""})))
+        elif k == "set_two":
+            f.decls.append(("func", FDecl("SetId", R, [Param(["a"], tid("int")), Param(["b"], tid("int"))], None, {"text": ""})))
+        elif k == "get_empty":
+            f.decls.append(("func", FDecl("Name", R, [], [], {"text": ""})))
+        elif k == "get_two":
+            f.decls.append(("func", FDecl("Id", R, [], [Param([], tid("int")), Param([], tid("error"))], {"text": "\treturn 0, nil\n"})))
+        elif k == "get_nobody":
+            if not any(d[0] == "func" and d[1].name == "Name" for d in f.decls):
+                f.decls.append(("func", FDecl("Name", R, [], [Param([], tid("string"))], None)))
+        elif k == "set_nobody":
+            if not any(d[0] == "func" and d[1].name == "SetName" for d in f.decls):
+                f.decls.append(("func", FDecl("SetName", R, [Param(["v"], tid("string"))], None, None)))
+        c.labels.append("shootnew:" + k)
     return T
 
 
@@ -1214,7 +1271,7 @@ PKG_DAMAGES = {
     "rest": [d_rest_param, d_rest_param, d_rest_results, d_rest_results, d_rest_results, d_rest_bad_path, d_rest_ambiguous,
              d_rest_doc, d_rest_embed, d_rest_embed, d_rest_wrong_kind, d_rest_needs_body, d_rest_two_maps],
     "map": [d_map_manual, d_map_manual, d_map_manual, d_map_dest_type, d_map_dest_type, d_map_src_kind, d_map_dest_pkg,
-            d_embed_named, d_embedded_universe],
+            d_embed_named, d_embedded_universe, d_map_shootnew, d_map_shootnew],
 }
 
 
@@ -1571,9 +1628,9 @@ def likely_outputs(c):
 
 
 def s_no_pkg_clause(rng, c):
-    """a Go file without package clause (empty, or a comment only).  With -file this is the open finding
-    K_testfile_no_package_clause, so it is only generated for command lines without -file"""
-    if any(re.match(r"^--?file", a) for a in c.args) or not c.files or "s_multi_pkg" in c.labels:
+    """a Go file without package clause (empty, or a comment only), also together with -file (repaired
+    K_testfile_no_package_clause)"""
+    if not c.files or "s_multi_pkg" in c.labels:
         return                    # (`go list` reports a directory that mixes packages differently when a file does not parse)
     g = GoFile(rng.choice(["empty9.go", "aa_blank.go", "zz_todo.go"]), "")
     g.raw = rng.choice(["", "\n", "// TODO: write this file\n"])
